@@ -91,6 +91,8 @@ static void expectNotImplemented(const std::string& prop, const std::string& sel
 	catch (std::exception& e) { R->violation(prop + "/" + sel + "/other-exception", e.what()); }
 }
 
+using gen::maxTuples;
+
 static void genCase(uint64_t idx, vh::Rng& g, Alpha& al, RTA& a, RTA& b, std::string& kind, int S, int Rn)
 {
 	static gen::Exhaustive exPair(2, 2);
@@ -100,7 +102,7 @@ static void genCase(uint64_t idx, vh::Rng& g, Alpha& al, RTA& a, RTA& b, std::st
 		al = gen::sigma0(); kind = "G1-pair"; uint64_t n = exPair.size(), k = (idx * 2654435761ull + R->seed * 7919) % (n * n);
 		a = exPair.get(k % n); b = exPair.get(k / n);
 	}
-	else gen::genPair(g, S, Rn, al, a, b, kind);
+	else gen::genPair(g, S, Rn, al, a, b, kind, true);
 }
 
 static void account(const Alpha& al, const RTA& a, const RTA& b, const std::string& kind, int ref)
@@ -123,7 +125,8 @@ static void caseC01(uint64_t idx, vh::Rng& g)
 	R->desc(rm::toTimbuk(a, al, "A") + rm::toTimbuk(b, al, "B"));
 	int ref = rm::refIncl(a, b, al);
 	account(al, a, b, kind, ref);
-	bool small = a.states().size() <= 6 && b.states().size() <= 6;
+	bool small = a.states().size() <= 6 && b.states().size() <= 6 && maxTuples(b) <= 9;
+	bool heavy = maxTuples(b) > 12;
 	bool viaText = g.chance(1, 4);   // a quarter of the cases go through the Timbuk loader (shared symbol names)
 	CaseAlphabet ca(al);
 	auto mk = [&](const RTA& x, const char* nm) { return viaText ? loadText<Aut>(rm::toTimbuk(x, al, nm)) : mkExpl(x, ca); };
@@ -131,6 +134,7 @@ static void caseC01(uint64_t idx, vh::Rng& g)
 	for (const Sel& s : SELS)
 	{
 		if (s.down && !s.sim && !small) { R->count("skipped-large:" + std::string(s.name)); continue; }
+		if (s.down && heavy) { R->count("skipped-heavy:" + std::string(s.name)); continue; }
 		for (int pre = 0; pre < (s.sim ? 1 : 2); ++pre)
 		{
 			std::string sel = std::string("expl/") + s.name + (pre ? "/presanitised" : "");
@@ -148,7 +152,7 @@ static void caseC01(uint64_t idx, vh::Rng& g)
 		writeFile(fa, rm::toTimbuk(a, al, "A")); writeFile(fb, rm::toTimbuk(b, al, "B"));
 		for (const Sel& s : SELS)
 		{
-			if (s.down && !s.sim && !small) continue;
+			if (s.down && ((!s.sim && !small) || heavy)) continue;
 			std::string opt = std::string("dir=") + (s.down ? "down" : "up") + ",rec=" + (s.rec ? "yes" : "no") + ",optC=" + (s.opt ? "yes" : "no") + ",sim=" + (s.sim ? "yes" : "no");
 			std::string sel = std::string("cli-expl/") + s.name; R->phase(sel); int rc = 0;
 			std::string out = runVata("-r expl -o " + opt + " incl " + fa + " " + fb, rc);
@@ -175,7 +179,7 @@ static void caseC07(uint64_t idx, vh::Rng& g)
 	R->desc(sa + sb);
 	int ref = rm::refIncl(a, b, al);
 	account(al, a, b, kind, ref);
-	bool small = a.states().size() <= 6 && b.states().size() <= 6;
+	bool small = a.states().size() <= 6 && b.states().size() <= 6 && maxTuples(b) <= 9;
 	int expl = -1;
 	R->phase("expl/up");
 	try { Aut x = loadText<Aut>(sa), y = loadText<Aut>(sb); expl = inclProtocol(x, y, SELS[0], false) ? 1 : 0; } catch (std::exception&) { }
@@ -196,6 +200,7 @@ static void caseC07(uint64_t idx, vh::Rng& g)
 		// (BU operands sanitised, union, BU downward simulation, GetTopDownAut), and identity
 		for (int mode = 0; mode < 2; ++mode)
 		{
+			if (maxTuples(b) > 12) { R->count("skipped-heavy:" + sel + "+sim"); continue; }
 			std::string nm = sel + (mode ? "+sim(identity)" : "+sim(bu-downward)"); R->phase(nm);
 			try
 			{
@@ -234,6 +239,7 @@ static void caseC07(uint64_t idx, vh::Rng& g)
 		}
 		catch (std::exception& e) { R->violation("C07/" + nm + "/exception", e.what()); }
 	}
+	if (maxTuples(b) <= 12)
 	{	// downward with simulation: the library prepares everything itself
 		std::string nm = "bdd-bu/down-rec+sim"; R->phase(nm);
 		try { SharedDict sd; auto x = loadText<BDDBottomUpTreeAut>(sa, sd), y = loadText<BDDBottomUpTreeAut>(sb, sd); InclParam ip = mkParam(SELS[5]); judge("C07", nm, BDDBottomUpTreeAut::CheckInclusion(x, y, ip), ref, expl); }
@@ -278,7 +284,7 @@ int main(int argc, char** argv)
 	if (run.prop == "C01") fn = caseC01; else if (run.prop == "C07") fn = caseC07;
 	else { fprintf(stderr, "mon_incl: unknown property %s\n", run.prop.c_str()); return 2; }
 	uint64_t idx;
-	while (run.next(idx)) { vh::Rng g = run.rng(idx); fn(idx, g); }
+	while (run.next(idx)) { vh::Rng g = run.rng(idx); vu::insertionRng() = &g; fn(idx, g); }
 #ifdef HAVE_VERIF_HOOKS
 	for (int i = 0; i < VATA::Verif::NUM_COUNTERS; ++i) if (VATA::Verif::Counters()[i]) run.count(std::string("reach:") + VATA::Verif::CounterName(i), static_cast<long>(VATA::Verif::Counters()[i]));
 #endif
